@@ -93,6 +93,19 @@ def progRunFI (cfg : Cfg α) (p : ProgFI α) (path : List Nat) : RunFn α := fun
     | some nv => algoRebalance cfg w path p.ws none (some nv)
   else pure w
 
+/-- the stack `[RunPeriod, WeighTarget(frame), Rebalance]`: `rows[d]` is the frame's row for the date of row `d` with missing
+    entries dropped (`none`: the date is not in the frame's index — WeighTarget returns False, the stack stops) -/
+structure ProgT (α : Type) where
+  gate : List Bool
+  rows : List (Option (List (Nat × α)))
+
+def progRunT (cfg : Cfg α) (p : ProgT α) (path : List Nat) : RunFn α := fun d w =>
+  if p.gate.getD d false then
+    match p.rows.getD d none with
+    | none => pure w
+    | some ws => algoRebalance cfg w path ws none none
+  else pure w
+
 /-- `CapitalFlow(amount)` at the head of a stack: `target.adjust(amount)` (a flow, marks the tree stale) on every call of `run()`,
     whatever the scheduler behind it answers -/
 def withFlow (amount : α) (f : List Nat → RunFn α) : List Nat → RunFn α := fun path d w =>
